@@ -17,10 +17,17 @@ level's files); a version is `(key, timestamp)`.  `Blue.Kvs.kvsLoad` is the exec
 implementation after every operation of every history — and `Blue.Kvs.invB` is the decidable form
 of the tree invariants I1 (levels ≥ 1 sorted, ranges at most touching) ∧ I2 ("newer above").
 
-What is proved: on every state satisfying I1 ∧ I2 the read returns exactly the visible version
-(`read_returns_latest`); ingest/flush, every *closed* compaction with any outputs and any cut
-points (with or without GC drops) and trivial moves preserve I2 and, when nothing is dropped,
-every read at every timestamp (`step_*`); the selector's slices (`selector_slices_closed`), the
+`invB` is more than "levels sorted": I1 = every level ≥ 1 sorted by key with at most touching
+ranges (`sortedB`) AND every file's version keys inside its `[first, last]` with `first ≤ last`
+(`wfB`); I2 = "newer above" in search order (`newerAboveB`).
+
+What is proved: on every state satisfying I1 ∧ I2 the read returns exactly the visible
+`(key, timestamp)` version (`read_returns_latest`); on *component lists*, every *closed* compaction
+with any outputs and any cut points (with or without GC drops) and trivial moves preserve I2 and,
+when nothing is dropped, every read at every timestamp (`step_compaction*`); a component put on top
+preserves I2 **if** it is newer than everything stored — that is a hypothesis of `step_ingest`
+(a model fact: the two conjuncts of the definition of `NewerAbove (c :: cs)`), not something proved
+of `put`/`flush`/ingest; the selector's slices (`selector_slices_closed`), the
 trivial move and `expand_compaction` as repaired (`trivial_move_closed`, `expansion_closed`) are
 closed, each from the guarantee its loop establishes (`Selection.Ok`, `Expansion.Ok`).
 
@@ -38,6 +45,15 @@ returns is closed (`nextCompaction_closed`), keeps I2 (`nextCompaction_keeps_new
 no input of a compaction in flight (`nextCompaction_respects_ongoing`) and respects the file limits
 up to the one-file overshoot of `expand_compaction` (`nextCompaction_within_limits`).
 
+What is NOT modelled (see `partial`/`assumptions` of the claim): values and tombstones — a version
+is a `(key, timestamp)` pair, which determines the payload; "a deleted key reads as `None`" and
+"the read timestamp is the last completed sequence number" are compared by the oracle only.  There
+is no history / step relation of the store in C01: no theorem for put/del/batch, memtable
+rollover, flush, reopen or the verifier/trash clean-ups, none that ties `kept ++ outs ++ post` to
+the `allComps` of the successor state (`apply_compaction_inner`), none for I1, and none relating
+`Blue.Kvs.invB` to `Blue.NextCompaction.Inv`.  "The last completed write of the history" is
+therefore a statement about each dumped state, tied to the history by the check.
+
 What is checked per run rather than proved: that the implementation's reached states satisfy
 `invB` (and the trees the selector runs on `Blue.NextCompaction.invB`), that the function model
 returns what the real selector returns, and — independently of the model — that every compaction
@@ -47,8 +63,10 @@ namespace Blue.Props.C01
 open Blue.Spec Blue.Kvs
 
 /-- **reads return the latest write**: if the decidable invariant check passes on a store state,
-    `KeyValueStore::load` returns exactly the newest version not newer than `t` of the union of
-    everything the store holds, and nothing if there is none -/
+    the model `kvsLoad` of `KeyValueStore::load` returns exactly the newest `(key, timestamp)`
+    version not newer than `t` of the union of everything the store holds, and nothing if there is
+    none.  Values and tombstones are not in the model (the pair determines the payload; tombstone
+    → `None` and "read timestamp = last completed sequence number" are oracle-only). -/
 theorem read_returns_latest (s : KState) (h : invB s = true) (k t : Nat) :
     (kvsLoad s k t = none → NoneVisible (allComps s).flatten k t)
     ∧ (∀ b, kvsLoad s k t = some b → IsVisible (allComps s).flatten k t b) :=
@@ -67,7 +85,13 @@ theorem tree_lookup_slices (l0 : List (List (Ver Nat))) (levels : List (List TFi
     treeLoad l0 levels k t = load (l0 ++ levels.flatMap (fun l => l.map (·.vers))) k t :=
   treeLoad_eq l0 levels hs hw k t
 
-/-- flush / ingest: a component newer than everything stored goes on top -/
+/-- MODEL FACT (restated definition, not a step theorem of the store): a component put on top of
+    the search order keeps "newer above" **provided** it is newer than everything stored for the
+    keys it shares — `hn` and `h` are exactly the two conjuncts of `NewerAbove (c :: cs)`.  That a
+    rolled-over memtable / an ingested file IS newer than everything stored is proved nowhere in
+    C01 (it is the sequence-number discipline of C06, observed here through `invB` on every dumped
+    state); a flush does not even put its file on top (the file replaces the immutable memtable
+    in level 0, below the memtables): no theorem covers put/del/batch, rollover or flush. -/
 theorem step_ingest {K : Type} [DecidableEq K] (c : List (Ver K)) (cs : List (List (Ver K)))
     (h : NewerAbove cs) (hn : ∀ a ∈ c, ∀ b ∈ cs.flatten, a.1 = b.1 → b.2 < a.2) :
     NewerAbove (c :: cs) := ingest_preserves c cs h hn
@@ -126,13 +150,25 @@ theorem open_compaction_stale_read_witness :
 open Blue.NextCompaction in
 /-- **the loops of `compute_bounds` establish `Selection.Ok`**: on every tree satisfying `Inv`, for
     every lower level and starting range (for level 0: a range covering level 0, as the hull
-    `next_compaction` passes does), the slices read off the computed bounds are exactly the files
-    meeting ranges that widen with depth and cover what they take — the hypothesis of
-    `selector_slices_closed` -/
+    `next_compaction` passes does), the selection `selOf` made of the computed bounds' `[first,
+    last]` per level has ranges that widen with depth and cover what they take — the hypothesis of
+    `selector_slices_closed`.  (`selOf` reads only `first`/`last` of the computed slices; that the
+    *index slices* `lo..hi` the code takes are exactly the files that selection takes is the next
+    theorem.) -/
 theorem compute_bounds_establishes_selection_ok {t : Tree} (hinv : Inv t) (lower first last upper : Nat)
     (hhull : lower = 0 → ∀ g ∈ level t 0, first ≤ g.first ∧ g.last ≤ last) (hup : upper < t.length) :
     (selOf (computeBounds t lower first last) lower upper).Ok (toTL (numLevels t upper)) :=
   selection_ok (computeBounds_ok hinv lower first last hhull) hup
+
+open Blue.NextCompaction in
+/-- … and the files in the computed index slices are exactly the files whose key range meets the
+    selection's range of their level: `selOf` takes what `compute_bounds`' slices hold -/
+theorem compute_bounds_slices_are_taken_files {t : Tree} (hinv : Inv t) (lower first last upper : Nat)
+    (hhull : lower = 0 → ∀ g ∈ level t 0, first ≤ g.first ∧ g.last ≤ last) (hup : upper < t.length)
+    {l : Nat} {g : File} (hg : g ∈ level t l) :
+    (selOf (computeBounds t lower first last) lower upper).takes l (toT g) = true ↔
+      lower ≤ l ∧ l ≤ upper ∧ g ∈ sliceFiles (level t l) ((computeBounds t lower first last).getD l ⟨0, 0, 0, 0⟩) :=
+  takes_selOf (computeBounds_ok hinv lower first last hhull) hup hg
 
 open Blue.NextCompaction in
 /-- **the loop of `expand_compaction` (repaired) establishes `Expansion.Ok`, and every candidate of
@@ -151,7 +187,11 @@ theorem nextCompaction_closed (n : Num) (o : Opts) (t : Tree) (og : List Core) (
   Blue.NextCompaction.nextCompaction_closed n o t og hinv h
 
 open Blue.NextCompaction in
-/-- … and therefore keeps "newer above" (I2), whatever outputs the compaction writes -/
+/-- … and therefore keeps "newer above" (I2), whatever outputs the compaction writes — **on the
+    tree the choice was made on** (`hna` is about `tagTree t c`): applying the compaction after
+    another compaction in flight finished or after intervening flushes changed the tree is not
+    covered by a theorem (the check compares every real choice on the tree it was made on and
+    `invB` on every state reached afterwards) -/
 theorem nextCompaction_keeps_newer_above (n : Num) (o : Opts) (t : Tree) (og : List Core) (hinv : Inv t)
     {c : Core} (h : nextCompaction n o t og = some c)
     (mems post outs : List (List (Ver Nat)))
@@ -231,7 +271,10 @@ theorem chooses_expanded_mandatory :
   decide +kernel
 
 /-- the hypotheses of `nextCompaction_closed` / `_respects_ongoing` are satisfiable with a
-    compaction in flight, and the conclusions say something: six inputs, none of them file 7 -/
+    compaction in flight; `_respects_ongoing` says something (six inputs, none of them file 7).
+    NOTE: in this example and the next-but-one no kept component lies below an input (tags
+    `[T,T,T,T,T,T]` and `[F,F,T,T,T,T]`), so `Closed` would hold for any versions; the instance
+    on which `Closed` has content is `t2` below. -/
 example : Closed (tagTree tree ⟨0, 2, 0, 20, [1, 2, 3, 4, 5, 6], 900⟩) :=
   Blue.Props.C01.nextCompaction_closed ieee opts tree [move] tree_inv chooses_merge_with_move_in_flight
 
@@ -251,13 +294,120 @@ example : Closed (tagTree tree ⟨1, 2, 0, 20, [3, 6, 4, 5], 500⟩) :=
 example : (candOver { opts with mandFiles := 2 } tree 1 (computeBounds tree 1 1 3) 1 500).inputs = [3, 6, 4, 5] := by
   decide +kernel
 
+/-! ### an instance on which `Closed`, `step_compaction`, `step_compaction_reads` and
+    `nextCompaction_keeps_newer_above` have content
+
+    Four levels; the selector (mandatory threshold 2) answers `⟨1, 2, 5, 8, [3, 6], 400⟩`: file 3
+    of level 1 with file 6 of level 2.  In search order the tags are `[F, F, T, F, F, T, F]`: kept
+    files 4 and 5 lie *between* the two inputs, kept file 7 and the level-3 file below both (four kept
+    components below input file 3), so `Closed` constrains the versions. -/
+
+def t2 : Tree :=
+  [[mk 1 2 6 600 30 [(2, 30), (6, 29)]],
+   [mk 2 1 3 100 20 [(1, 20), (3, 19)], mk 3 5 7 300 22 [(5, 22), (7, 21)], mk 4 9 12 100 23 [(9, 23), (12, 18)]],
+   [mk 5 0 4 100 10 [(0, 10), (3, 9)], mk 6 5 8 100 12 [(5, 12), (8, 11)], mk 7 9 20 100 13 [(9, 13), (20, 8)]],
+   [mk 8 0 30 50000 1 [(5, 1), (30, 0)]]]
+def o2 : Opts := ⟨100, 1000000, 2, 4, 1000000⟩
+def c2 : Core := ⟨1, 2, 5, 8, [3, 6], 400⟩
+
+theorem t2_inv : Inv t2 := invB_sound (by decide +kernel)
+theorem t2_choice : nextCompaction ieee o2 t2 [] = some c2 := by decide +kernel
+
+theorem t2_closed : Closed (tagTree t2 c2) :=
+  Blue.Props.C01.nextCompaction_closed ieee o2 t2 [] t2_inv t2_choice
+
+/-- kept components between and below the inputs -/
+example : ((tagTree t2 c2).map (·.1)) = [false, false, true, false, false, true, false] := by decide +kernel
+
+/-- the search order with one memtable in front (`pre2`), the untouched level 3 (`post2`) and the
+    outputs of the merge cut into two files, key 5 split across the cut (`outs2`) -/
+def pre2 : Tagged Nat := ([[(5, 40)]].map (fun m => (false, m)) ++ tagTree t2 c2)
+def post2 : List (List (Ver Nat)) := [[(5, 1), (30, 0)]]
+def outs2 : List (List (Ver Nat)) := [[(5, 22)], [(5, 12), (7, 21), (8, 11)]]
+
+theorem pre2_eq : pre2 = [(false, [(5, 40)]), (false, [(2, 30), (6, 29)]), (false, [(1, 20), (3, 19)]),
+    (true, [(5, 22), (7, 21)]), (false, [(9, 23), (12, 18)]), (false, [(0, 10), (3, 9)]),
+    (true, [(5, 12), (8, 11)]), (false, [(9, 13), (20, 8)])] := by decide +kernel
+
+theorem pre2_closed : Closed pre2 := closed_under_memtables _ _ t2_closed
+
+theorem pre2_same : ∀ e, e ∈ outs2.flatten ↔ e ∈ (inputs pre2).flatten := by
+  rw [pre2_eq]; intro e; simp [outs2, inputs]
+  constructor <;> (intro h; rcases h with h | h | h | h <;> simp [h])
+
+/-- `nextCompaction_keeps_newer_above`: all hypotheses hold on the selector's own answer -/
+example : NewerAbove (kept pre2 ++ outs2 ++ post2) :=
+  Blue.Props.C01.nextCompaction_keeps_newer_above ieee o2 t2 [] t2_inv t2_choice [[(5, 40)]] post2 outs2
+    (by show NewerAbove (pre2.map (·.2) ++ post2); rw [pre2_eq]; decide)
+    (by show ∀ e ∈ outs2.flatten, e ∈ (inputs pre2).flatten; rw [pre2_eq]; decide)
+    (by decide)
+
+/-- `step_compaction_reads`: no read changes, at any key and timestamp -/
+example (k t : Nat) : load (kept pre2 ++ outs2 ++ post2) k t = load (pre2.map (·.2) ++ post2) k t :=
+  Blue.Props.C01.step_compaction_reads pre2 post2 outs2
+    (by rw [pre2_eq]; decide) pre2_closed pre2_same (by decide) k t
+
+/-- `step_compaction` with a GC drop (version `5@12` left out of the outputs) -/
+example : NewerAbove (kept pre2 ++ [[(5, 22)], [(7, 21), (8, 11)]] ++ post2) :=
+  Blue.Props.C01.step_compaction pre2 post2 [[(5, 22)], [(7, 21), (8, 11)]]
+    (by rw [pre2_eq]; decide) pre2_closed (by rw [pre2_eq]; decide) (by decide)
+
+/-- what the reads of key 5 are on the successor list: memtable, first output, second output, level 3 -/
+example : load (kept pre2 ++ outs2 ++ post2) 5 50 = some (5, 40) ∧ load (kept pre2 ++ outs2 ++ post2) 5 30 = some (5, 22)
+    ∧ load (kept pre2 ++ outs2 ++ post2) 5 15 = some (5, 12) ∧ load (kept pre2 ++ outs2 ++ post2) 5 5 = some (5, 1) := by
+  rw [pre2_eq]; decide
+
 end Example
 
-/-! non-vacuity: a state with versions of one key in memtable, level 0 and level 1 passes the check -/
-example :
-    let s : KState := { mem := [(1, 9)], imm := none,
-                        l0 := [⟨0, 1, 7, [(0, 7), (1, 6)]⟩], levels := [[⟨1, 2, 4, [(1, 4), (2, 3)]⟩]] }
-    invB s = true ∧ kvsLoad s 1 8 = some (1, 6) ∧ kvsLoad s 1 5 = some (1, 4) := by decide +kernel
+/-! ### non-vacuity of `read_returns_latest`: memtable, immutable memtable, two overlapping level-0
+    files (given out of search order, so `l0Order` works), level 1 with three files of which two
+    share the boundary key 5 (a key straddling two files), level 2 with two files.  Key 5 has six
+    versions in five components.  (`decide +kernel` alone gets stuck on `List.mergeSort` once level
+    0 has two files: `l0Order` is evaluated by `simp` first.) -/
+
+def s1 : KState :=
+  { mem := [(5, 40), (7, 39)], imm := some [(5, 30), (2, 31)],
+    l0 := [⟨1, 9, 20, [(1, 20), (5, 19), (9, 18)]⟩, ⟨4, 8, 25, [(4, 25), (5, 24), (8, 23)]⟩],
+    levels := [[⟨0, 5, 15, [(0, 15), (5, 14)]⟩, ⟨5, 7, 13, [(5, 12), (7, 11)]⟩, ⟨8, 12, 10, [(8, 10), (12, 9)]⟩],
+               [⟨0, 6, 5, [(2, 5), (5, 4), (6, 3)]⟩, ⟨7, 20, 2, [(7, 2), (20, 1)]⟩]] }
+
+theorem s1_l0 : l0Order s1.l0
+    = [⟨4, 8, 25, [(4, 25), (5, 24), (8, 23)]⟩, ⟨1, 9, 20, [(1, 20), (5, 19), (9, 18)]⟩] := by
+  simp [l0Order, s1, List.mergeSort, List.MergeSort.Internal.splitInTwo]
+
+theorem s1_inv : invB s1 = true := by
+  unfold invB allComps l0Comps
+  rw [s1_l0]
+  decide +kernel
+
+/-- one read out of each component holding key 5, a read below every version, a key of the last
+    file, an absent key -/
+theorem s1_reads : kvsLoad s1 5 100 = some (5, 40) ∧ kvsLoad s1 5 29 = some (5, 24) ∧ kvsLoad s1 5 20 = some (5, 19)
+    ∧ kvsLoad s1 5 13 = some (5, 12) ∧ kvsLoad s1 5 11 = some (5, 4) ∧ kvsLoad s1 5 3 = none
+    ∧ kvsLoad s1 20 9 = some (20, 1) ∧ kvsLoad s1 3 100 = none := by
+  unfold kvsLoad l0Comps
+  rw [s1_l0]
+  decide +kernel
+
+/-- the theorem instantiated: both conjuncts -/
+example : IsVisible (allComps s1).flatten 5 13 (5, 12) :=
+  (read_returns_latest s1 s1_inv 5 13).2 _ s1_reads.2.2.2.1
+example : NoneVisible (allComps s1).flatten 5 3 :=
+  (read_returns_latest s1 s1_inv 5 3).1 s1_reads.2.2.2.2.2.1
+
+/-- … and `invB` rejects a stale order: an older version of key 5 (`5@13`) in level 0 above the
+    newer `5@14` of level 1 -/
+def s1bad : KState :=
+  { s1 with l0 := [⟨1, 9, 20, [(1, 20), (5, 13), (9, 18)]⟩, ⟨4, 8, 25, [(4, 25), (5, 24), (8, 23)]⟩] }
+
+theorem s1bad_l0 : l0Order s1bad.l0
+    = [⟨4, 8, 25, [(4, 25), (5, 24), (8, 23)]⟩, ⟨1, 9, 20, [(1, 20), (5, 13), (9, 18)]⟩] := by
+  simp [l0Order, s1bad, s1, List.mergeSort, List.MergeSort.Internal.splitInTwo]
+
+example : invB s1bad = false := by
+  unfold invB allComps l0Comps
+  rw [s1bad_l0]
+  decide +kernel
 
 end Blue.Props.C01
 
@@ -272,6 +422,7 @@ end Blue.Props.C01
 #print axioms Blue.Props.C01.trivial_move_closed
 #print axioms Blue.Props.C01.expansion_closed
 #print axioms Blue.Props.C01.compute_bounds_establishes_selection_ok
+#print axioms Blue.Props.C01.compute_bounds_slices_are_taken_files
 #print axioms Blue.Props.C01.expand_candidate_closed
 #print axioms Blue.Props.C01.nextCompaction_closed
 #print axioms Blue.Props.C01.nextCompaction_keeps_newer_above
@@ -280,6 +431,10 @@ end Blue.Props.C01
 #print axioms Blue.Props.C01.nextCompaction_within_limits
 #print axioms Blue.Props.C01.tree_invariant_check_sound
 #print axioms Blue.Props.C01.compute_bounds_loop_reaches_fixed_point
+#print axioms Blue.Props.C01.Example.t2_closed
+#print axioms Blue.Props.C01.Example.pre2_closed
+#print axioms Blue.Props.C01.s1_inv
+#print axioms Blue.Props.C01.s1_reads
 #print axioms Blue.NextCompaction.nextCompaction_origin
 #print axioms Blue.ConstsTie.c01_selector_defaults
 #print axioms Blue.ConstsTie.c01_level_factor_expr
